@@ -42,7 +42,6 @@ var notApplicable = map[string]string{
 // notBuilt lists properties to which the technique applies but for which no
 // check is registered yet.
 var notBuilt = map[string]string{
-	"C02": "not built: the technique applies (simulated auth/JWKS authority, network faults, fake clock) but world W4 was not built; see DESIGN.md",
 	"C13": "not built: world W2 with recording component stubs was not built; see DESIGN.md",
 	"C43": "not built: world W5 (real HLS server on a simulated transport) was not built; see DESIGN.md",
 }
